@@ -291,6 +291,7 @@ def run(run, tier):
     import EoN.simulation as sim
     rng = run.rng
     props = C.check_props('C16')
+    C.extra_props(run, 'C16', props, ['C16fm'])
     ok, log = C.build_driver('base')
     if not ok:
         run.violation('C16/build', 'extracted model does not build: ' + log[-500:], {'log': log[-3000:]}, no_input=True)
